@@ -11,6 +11,27 @@ CHECKS = {
          "property-based testing (rapid) + deterministic edge sweep; oracle: exact big-rational floor for x and f, 256-bit Mercator reference with stated band for y, inverse-map containment",
          "Generated search: every returned ID is compared with an independent exact reference on tens of thousands of points per run (domain edges, exact tile/row/cell boundaries +-1 ulp, all 36x36 zoom pairs swept). Finds any wrong rounding mode, off-by-one, swapped field or lost ordering; does not prove absence.",
          "Trusted: ref/ (math/big; own unit tests run by setup_cmd), Go's strconv. Points closer than the stated float bands to a cell edge accept either neighbour."),
+
+ "C02": ("DESIGN.md 5/C02",
+         "property-based testing (rapid) + zoom-pair sweep; oracle: closed-form voxel geometry (exact rational longitudes, Gudermannian latitudes with the documented 1e-10 cut, exact altitudes), round trip centre->ID, bit-exact shared faces",
+         "Generated search over valid IDs in both notations: all eight vertices and the centre are compared with an independent closed form, the centre is converted back to an ID (string equality) and the faces shared with the three positive neighbours are compared bit for bit; all 36x36 zoom pairs are swept at the grid edges.",
+         "Trusted: ref/ closed forms (float64 + math/big), the latitude band of 1e-10 (documented truncation) + 2e-13."),
+ "C03": ("DESIGN.md 5/C03",
+         "property-based testing (rapid) + exhaustive small-scope sweep; oracle: dyadic-box reference model (floor ancestors / child ranges), exact set equality",
+         "Generated relational ID lists (mixed zooms, negative indices) x all target zoom pairs; output compared as a set with the reference, duplicates and zoom fields checked, the three exported per-axis helpers compared per input. Exhaustive over every box at zooms <= 2 and targets <= 5.",
+         "Trusted: ref/ integer model. Zoom-in bounded to <= 4096 outputs (documented unbounded memory)."),
+ "C04": ("DESIGN.md 5/C04",
+         "property-based testing (rapid) + exhaustive subset sweep; oracles: reference merge (expected set), independent region equality by unit cells, idempotence (metamorphic)",
+         "Generated ID lists built around target voxels (complete / one-missing / overlapping tilings, ground level, ineligible and duplicate entries); three independent oracles per case. Exhaustive over all subsets of the children of a voxel above and below ground.",
+         "Trusted: ref/ integer model. Zoom spread bounded to 2/3 levels (documented memory bound)."),
+ "C05": ("DESIGN.md 5/C05",
+         "property-based testing (rapid) + exhaustive small-scope sweep; oracle: ancestor-or-equal relation per axis; metamorphic: symmetry, reflexivity, array = disjunction of pairs; differential: radix-tree vs zoom-change implementation",
+         "Generated pairs and lists related axis by axis (near misses on one axis, negative indices, sub-metre zooms, empty lists) for both APIs; answer compared with the reference, with the swapped call, with the pairwise form and with the other implementation.",
+         "Trusted: ref/ integer model. Single-zoom form restricted to its documented altitude range."),
+ "C12": ("DESIGN.md 5/C12",
+         "property-based testing (rapid) + exhaustive tuple sweep; oracle: exact rational interval arithmetic (covering range and metre-widened covering range), error-iff rule, duality between the two directions",
+         "Generated (index, zooms, base exponent, offset) tuples constructed to land in range (offsets unaligned, odd, negative, sub-metre zooms, top/bottom indices) in both directions; result must lie between the exact and the metre-widened covering range, errors exactly where the property demands; exhaustive over a small tuple space.",
+         "Trusted: ref/ big.Rat arithmetic. Tuples whose intermediates overflow int64 are excluded by construction."),
 }
 
 NOT_YET = {
